@@ -31,6 +31,7 @@ def dispatch (line : String) : String :=
       | "cycles" => handleCycles args obs
       | "cnt" => handleCnt args obs
       | "cnthammer" => handleHammer args obs
+      | "cntshared" => handleShared args obs
       | "life" => handleLife args obs
       | "alloc" => handleAlloc args obs
       | "allocinstall" => handleAllocInstall args obs
@@ -49,6 +50,7 @@ def dispatch (line : String) : String :=
       | "boolgate" => handleBoolGate args obs
       | "boolstr" => handleBoolStr args obs
       | "armrun" => handleArmRun args obs
+      | "armhammer" => handleArmHammer args obs
       | "armcompile" => handleArmCompile args obs
       | _ => bad ("unknown-tag:" ++ tag)
     v.render
